@@ -90,24 +90,12 @@ Section Statements.
   Proof. wf H. by_lemma yz_coupling_nonorth. Qed.
   Theorem C02_dphidy : DPH = hy * Bt / (Bp * Rx) /\ DPH = bps * dzShift_dy Rx Bp hy Bt.
   Proof. wf H. split; [reflexivity | exact (dphidy_is_signed_dz Rx Bp hy cosB tanB bps sinB HR HBp Htan Hunit Hbps Habs Bt)]. Qed.
-  (* orthogonal branch: holds when psi increases outwards ... *)
-  Theorem C02_yz_coupling_orth_partial :
-    bps = 1 -> AD metric_orth_g_23 = AD metric_orth_g_33 * dzShift_dy Rx Bp hy Bt.
-  Proof. wf H. by_lemma yz_coupling_orth_bps_pos. Qed.
+  (* orthogonal branch, both signs of bpsign (was refuted on the pinned tree for bpsign = -1: finding F1,
+     repaired by the `fix:` commit recorded in known_findings.json) *)
+  Theorem C02_yz_coupling_orth :
+    AD metric_orth_g_23 = AD metric_orth_g_33 * dzShift_dy Rx Bp hy Bt.
+  Proof. wf H. by_lemma yz_coupling_orth. Qed.
 End Statements.
-
-(* ... and is FALSE when psi decreases outwards (bpsign = -1), e.g. the shipped examples: finding F1.
-   The full-strength statement is kept; its negation is proved with a concrete witness which the
-   harness replays on the implementation. *)
-Theorem C02_yz_coupling_orth_refuted :
-  exists Rx Bp hy cosB tanB bps sinB Bt, WF Rx Bp hy cosB tanB bps sinB /\
-    ~ yz_coupling_orth_statement Rx Bp hy cosB tanB bps Bt.
-Proof.
-  exists 1, (-1), 1, 1, 0, (-1), 0, 1. split.
-  - unfold WF. rewrite Rabs_left by lra. repeat split; lra.
-  - unfold yz_coupling_orth_statement, dzShift_dy. unfold_metric. rewrite Rabs_left by lra.
-    intro E. field_simplify in E. assert (E2 : 1 / - (1) = -1) by (field; lra). lra.
-Qed.
 
 (* Displacements (non-orthogonal branch), from first principles -- see Proof_Metric2.Displacements *)
 Section Disp.
@@ -142,8 +130,7 @@ Print Assumptions C02_inverse_orth.
 Print Assumptions C02_jacobian.
 Print Assumptions C02_closed_forms.
 Print Assumptions C02_yz_coupling_nonorth.
-Print Assumptions C02_yz_coupling_orth_partial.
-Print Assumptions C02_yz_coupling_orth_refuted.
+Print Assumptions C02_yz_coupling_orth.
 Print Assumptions C02_g_11_displacement.
 Print Assumptions C02_g_12_displacement_partial.
 Print Assumptions C02_g_12_displacement_wrong_sign.
